@@ -349,7 +349,16 @@ def provider_write(draw, d, rp, v, g, changing=True):
                             del entries[c][(p, k)]
                     if not entries[c]:
                         del entries[c]
-            return reshape_req(d, {rp: invs}, entries, v, rp_gens={rp: g})
+            inv_all = {rp: invs}
+            others = [x for x in sorted(d.providers) if x != rp]
+            if others and draw(st.integers(0, 2)) == 0:
+                # a second provider, restated unchanged with its current
+                # generation, listed AFTER the contended one
+                o = draw(st.sampled_from(others))
+                inv_all[o] = current_inv_body(d, o)
+            r = reshape_req(d, inv_all, entries, v, rp_gens={rp: g})
+            r['target'] = rp
+            return r
         return gen.R('PUT', '/resource_providers/%s/inventories' % rp, v,
                      {'resource_provider_generation': g, 'inventories': invs},
                      'put_inventories', [], target=rp, carried=g)
